@@ -6,7 +6,9 @@ From VekProofs Require Import C16_spec C16_pb C16_pc C16_pd.
 Theorem C16_disk_sphere : C16_disk_sphere_stmt. Proof. exact C16_pb.C16_disk_sphere. Qed.
 Theorem C16_segment : C16_segment_stmt.         Proof. exact C16_pc.C16_segment. Qed.
 Theorem C16_ray : C16_ray_stmt.                 Proof. exact C16_pd.C16_ray. Qed.
+Theorem C16_ray_new : C16_ray_new_stmt.         Proof. intros k a; reflexivity. Qed.
 
 Print Assumptions C16_disk_sphere.
 Print Assumptions C16_segment.
 Print Assumptions C16_ray.
+Print Assumptions C16_ray_new.
